@@ -13,12 +13,13 @@
 //	reg <o> <amount> <lock> <v2>          environment: RegisterProducer processed (its own check is not run)
 //	dep <o> <v>                           environment: TransferAsset paying the deposit address of o
 //	cancel <o>                            CancelProducer, real context check
-//	ret <o> <inp> <tinp> <change> <out> <utxo,utxo,..>   ReturnDepositCoin, real context check
+//	ret <o> <inp> <tinp> <change> <out> <utxo,utxo,..> [<o2> <other>]   ReturnDepositCoin, real context check; outputs:
+//	                                      change to o's own deposit address, out to an ordinary address, other to producer o2's deposit address
 //	pen <o> <eff> <p>                     IllegalProposalEvidence naming o's node key; eff = producer is Active (oracle value), p = configured penalty
 //	stake <k> <v>                         environment: ExchangeVotes processed
 //	vote <k> <lock> <v,v,..> <bad>        bad = index of the first candidate that is not an active v2 producer, or n (oracle value);
 //	                                      Voting (DPoS v2 content), real context check; candidates = v2 producers 0..n-1
-//	retv <k> <v>                          ReturnVotes, real context check
+//	retv <k> <v> [<ver> <other>]          ReturnVotes, real context check (V0: authorised by k, program of another key)
 //	renew <k> <referKey> <oldLock> <amount> <born> <newLock>   Voting (renewal content) of one detailed vote, real check
 //	crreg <c> <amount> / crdep <c> <v>    environment: RegisterCR / payment to the candidate's deposit address
 //	crvote <c> <v>                        environment: CRC vote output for candidate c
@@ -479,6 +480,14 @@ func exec(t []string) string {
 			outs = append(outs, &ctypes.Output{ProgramHash: dh, Value: change})
 		}
 		outs = append(outs, &ctypes.Output{ProgramHash: standardHash(k), Value: out})
+		o2, other := -1, common.Fixed64(0)
+		if len(t) >= 9 { // a further output to ANOTHER producer's deposit address (not change: it counts as withdrawn)
+			o2, other = int(i64(t[7])), common.Fixed64(i64(t[8]))
+			if o2 == o {
+				panic("harness: the other deposit address must belong to a different producer")
+			}
+			outs = append(outs, &ctypes.Output{ProgramHash: depositHash(w.owner(o2)), Value: other})
+		}
 		tx := w.mk(ctypes.ReturnDepositCoin, 0, &payload.ReturnDepositCoin{}, ins, outs, []*program.Program{{Code: k.code, Parameter: []byte{0}}})
 		tx.SetReferences(refs)
 		v := verdict(tx)
@@ -489,6 +498,9 @@ func exec(t []string) string {
 			}
 			if change != 0 {
 				w.utxos = append(w.utxos, &utxo{owner: o, value: change, op: ctypes.NewOutPoint(tx.Hash(), 0), born: w.height})
+			}
+			if o2 >= 0 {
+				w.utxos = append(w.utxos, &utxo{owner: o2, value: other, op: ctypes.NewOutPoint(tx.Hash(), uint16(len(outs)-1)), born: w.height})
 			}
 		}
 		return v
@@ -687,11 +699,29 @@ func exec(t []string) string {
 			w.pending = append(w.pending, tx)
 		}
 		return v
-	case "retv":
+	case "retv": // retv <k> <v> [<ver> <other>]: ver 0 = payload V0 (payload.Code = k, signed by k; program = other's key),
+		// ver 1 = Schnorr version (program = k; payload.Code = other's key, ignored by the node)
 		o := int(i64(t[1]))
 		k := w.stake(o)
 		pl := &payload.ReturnVotes{ToAddr: standardHash(k), Value: common.Fixed64(i64(t[2]))}
-		tx := w.mk(ctypes.ReturnVotes, payload.ReturnVotesSchnorrVersion, pl, nil, nil, []*program.Program{{Code: k.code, Parameter: []byte{0}}})
+		ver, progKey := payload.ReturnVotesSchnorrVersion, k
+		if len(t) >= 5 {
+			other := w.stake(int(i64(t[4])))
+			if t[3] == "0" {
+				ver, progKey = payload.ReturnVotesVersionV0, other
+				pl.Code = k.code
+				buf := new(bytes.Buffer)
+				pl.SerializeUnsigned(buf, payload.ReturnVotesVersionV0)
+				sig, err := crypto.Sign(k.priv, buf.Bytes())
+				if err != nil {
+					panic("harness: sign " + err.Error())
+				}
+				pl.Signature = sig
+			} else {
+				pl.Code = other.code
+			}
+		}
+		tx := w.mk(ctypes.ReturnVotes, ver, pl, nil, nil, []*program.Program{{Code: progKey.code, Parameter: []byte{0}}})
 		v := verdict(tx)
 		if v == "accept" {
 			w.pending = append(w.pending, tx)
